@@ -2346,12 +2346,13 @@ where
             Ok(out) => {
                 // A succeeded -- go back to the beginning and try B
                 let after = inp.save();
-                inp.rewind(before);
+                // Only the position is reset: errors emitted by A belong to the output we're going to return
+                inp.rewind_input(before);
 
                 match self.parser_b.go::<Check>(inp) {
                     Ok(()) => {
                         // B succeeded -- go to the end of A and return its output
-                        inp.rewind(after);
+                        inp.rewind_input(after);
                         Ok(out)
                     }
                     Err(()) => {
